@@ -533,3 +533,151 @@ def special_C29(seed, tier, model, deadline):
         nops += len(ops)
     return {'failures': fails, 'mismatches': mism,
             'coverage': {'state_zoo_programs': progs, 'state_zoo_ops': nops, 'state_zoo_probe_calls': kinds}}
+
+
+def mutate_block(rng, base, kind):
+    """a header block for `kind`, derived from a conformant base by 0..3 rule-breaking (or harmless) edits; list of
+    (name, value) bytes pairs"""
+    hs = list(base)
+    edits = rng.choice([0, 0, 1, 1, 1, 2, 3])
+    for _ in range(edits):
+        m = rng.randrange(24)
+        pos = rng.randrange(len(hs) + 1)
+        at = rng.randrange(len(hs)) if hs else None
+        if m == 0 and hs:
+            n, v = hs[at]; hs[at] = (n[:1] + n[1:].upper() if rng.random() < 0.5 else n.title(), v)
+        elif m == 1 and hs:
+            n, v = hs[at]; w = rng.choice([b' ', b'\t', b'\n', b'\r', b'\x0b', b'\x0c'])
+            hs[at] = rng.choice([(w + n, v), (n + w, v), (n, w + v), (n, v + w), (n, w), (n, v + b' x'), (n, b'x ' + v)])
+        elif m == 2:
+            hs.insert(pos, (rng.choice([b'connection', b'proxy-connection', b'keep-alive', b'transfer-encoding', b'upgrade']),
+                            rng.choice([b'close', b'x', b''])))
+        elif m == 3:
+            hs.insert(pos, (b'te', rng.choice([b'trailers', b'Trailers', b'TRAILERS', b'gzip', b'trailers, deflate', b'', b' trailers'])))
+        elif m == 4 and hs:
+            hs.insert(pos, hs[at])                                   # duplicate a field
+        elif m == 5 and len(hs) > 1:
+            h = hs.pop(at); hs.insert(pos % (len(hs) + 1), h)         # move a field
+        elif m == 6 and hs:
+            hs.pop(at)                                                # drop a field
+        elif m == 7:
+            hs.insert(pos, (rng.choice([b':status', b':method', b':scheme', b':path', b':authority', b':protocol']),
+                            rng.choice([b'200', b'GET', b'CONNECT', b'https', b'/', b'x', b'websocket'])))
+        elif m == 8:
+            hs.insert(pos, (rng.choice([b':foo', b':', b':Status', b':version', b'::path']), b'1'))
+        elif m == 9:
+            hs.insert(pos, (b'', rng.choice([b'', b'v'])))
+        elif m == 10:
+            hs = [(n, b'' if n == b':path' else v) for n, v in hs]
+        elif m == 11:
+            hs.insert(pos, (b'host', rng.choice([b'x', b'y', b'', b'X'])))
+        elif m == 12:
+            hs = [(n, v) for n, v in hs if n != b':authority']
+            if rng.random() < 0.6:
+                hs.append((b'host', rng.choice([b'x', b'example.com'])))
+        elif m == 13:
+            for _ in range(rng.choice([1, 2, 3])):
+                hs.insert(rng.randrange(len(hs) + 1), (b'cookie', rng.choice([b'a=b', b'c=d', b'', b' e=f', b'g=h ', b'i=j; k=l'])))
+        elif m == 14:
+            hs.insert(0, (b'cookie', rng.choice([b'a=b', b'z=1'])))   # a regular field before the pseudo-header fields
+        elif m == 15:
+            hs.insert(pos, (rng.choice([b'x-custom', b'accept', b'x', b'a-b_c.d', b'0', b'x:y', b'cookie2']),
+                            rng.choice([b'', b'v', b'a b', b'\xc3\xa9', b'\xff\xfe', b'a\tb', b'UPPER'])))
+        elif m == 16 and hs:
+            hs = [(n, b'CONNECT' if n == b':method' else v) for n, v in hs]
+        elif m == 17:
+            hs.insert(pos, (b':protocol', b'websocket'))
+        elif m == 18:
+            hs.append((rng.choice([b':path', b':status', b':method']), rng.choice([b'/', b'200', b'GET'])))   # pseudo after regular (if any)
+        elif m == 19 and hs:
+            n, v = hs[at]; hs[at] = (n + rng.choice([b'\xc3\xa9', b'\xff', b'-x']), v)
+        elif m == 20:
+            hs = [(n, v) for n, v in hs if not n.startswith(b':')]   # no pseudo-header fields at all
+        elif m == 21:
+            hs.insert(pos, (b'Host', b'x'))
+        elif m == 22:
+            hs.insert(pos, (b'authorization', b'secret'))
+        else:
+            hs.insert(pos, (b'x-ok', b'fine'))
+    return hs
+
+
+def special_C15(seed, tier, model, deadline):
+    """header blocks over an adversarial grammar (conformant bases with 0..3 edits) delivered in each of the five
+    positions (request, response, informational, trailers, pushed request) under each validate/normalise/
+    header_encoding configuration; the op carries the block and its kind so that oracle_C15 can also judge
+    completeness (conformant -> delivered, non-conformant -> PROTOCOL_ERROR)"""
+    import random
+    import time
+    import wire
+    from oracles import oracle_C15
+    REQ = [(b':method', b'GET'), (b':scheme', b'https'), (b':path', b'/'), (b':authority', b'x')]
+    POST = [(b':method', b'POST'), (b':scheme', b'https'), (b':path', b'/p'), (b':authority', b'x'), (b'x-a', b'1')]
+    CONNECT = [(b':method', b'CONNECT'), (b':scheme', b'https'), (b':path', b'/'), (b':authority', b'x'), (b':protocol', b'websocket')]
+    HOSTED = [(b':method', b'GET'), (b':scheme', b'http'), (b':path', b'/'), (b'host', b'x')]
+    RESP = [(b':status', b'200'), (b'server', b'x')]
+    INFO = [(b':status', b'100')]
+    TRAIL = [(b'x-checksum', b'abc')]
+    blk = lambda hs: wire.hpack_literal_block([(n, v, False) for n, v in hs])
+    n = {'quick': 400, 'thorough': 8000}.get(tier, 400)
+    fails, mism, progs, nops = [], [], 0, 0
+    stats = {}
+    import rulebook
+    for k in range(n):
+        if time.time() > deadline:
+            break
+        rng = random.Random((seed * 15485863 + k) & 0xFFFFFFFF)
+        kind = rng.choice(['request', 'request', 'response', 'informational', 'trailers', 'push'])
+        vi = 0 if rng.random() < 0.15 else 1
+        ni = 0 if rng.random() < 0.3 else 1
+        enc = rng.choice([None, None, 'utf-8'])
+        client = kind in ('response', 'informational', 'push') or (kind == 'trailers' and rng.random() < 0.5)
+        ops = [{'op': 'new', 'c': 0, 'client': client, 'vo': 1, 'no': 1, 'vi': vi, 'ni': ni, 'enc': enc},
+               {'op': 'initiate_connection', 'c': 0},
+               {'op': 'recv', 'c': 0, 'data': (b'' if client else wire.PREFACE) + wire.settings_frame([]) + wire.settings_frame(ack=True)}]
+        if kind == 'request':
+            hs = mutate_block(rng, rng.choice([REQ, REQ, POST, CONNECT, HOSTED]), kind)
+            ops.append({'op': 'recv', 'c': 0, 'data': wire.headers_frames(1, blk(hs), end_stream=rng.random() < 0.5)})
+        elif kind == 'response':
+            hs = mutate_block(rng, RESP, kind)
+            ops.append({'op': 'send_headers', 'c': 0, 'sid': 1, 'headers': [(n, v, False) for n, v in REQ], 'es': True})
+            ops.append({'op': 'recv', 'c': 0, 'data': wire.headers_frames(1, blk(hs), end_stream=rng.random() < 0.5)})
+        elif kind == 'informational':
+            hs = mutate_block(rng, INFO, kind)
+            if not any(n == b':status' and v[:1] == b'1' for n, v in hs[:1]):
+                kind = 'response'       # without a leading 1xx :status the library (rightly) reads the block as a response
+            ops.append({'op': 'send_headers', 'c': 0, 'sid': 1, 'headers': [(n, v, False) for n, v in REQ], 'es': True})
+            ops.append({'op': 'recv', 'c': 0, 'data': wire.headers_frames(1, blk(hs), end_stream=False)})
+        elif kind == 'trailers':
+            hs = mutate_block(rng, TRAIL, kind)
+            if client:
+                ops.append({'op': 'send_headers', 'c': 0, 'sid': 1, 'headers': [(n, v, False) for n, v in REQ], 'es': True})
+                ops.append({'op': 'recv', 'c': 0, 'data': wire.headers_frames(1, blk(RESP), end_stream=False)})
+            else:
+                ops.append({'op': 'recv', 'c': 0, 'data': wire.headers_frames(1, blk(POST), end_stream=False)})
+            ops.append({'op': 'recv', 'c': 0, 'data': wire.headers_frames(1, blk(hs), end_stream=True)})
+        else:
+            hs = mutate_block(rng, rng.choice([REQ, REQ, HOSTED]), kind)
+            ops.append({'op': 'send_headers', 'c': 0, 'sid': 1, 'headers': [(n, v, False) for n, v in REQ], 'es': False})
+            ops.append({'op': 'recv', 'c': 0, 'data': wire.push_promise_frames(1, 2, blk(hs))})
+        # blocks whose type the library decides differently from the position are left to the soundness clauses
+        judge = True
+        if kind in ('response', 'informational'):
+            first_status = next((v for n, v in hs if n == b':status'), None)
+            lead = hs[0][0].startswith(b':') if hs else False
+            if kind == 'response' and lead and first_status is not None and first_status[:1] == b'1':
+                judge = False
+            if any(n == b'content-length' for n, v in hs):
+                judge = False
+        if judge:
+            ops[-1]['expect'] = {'kind': kind, 'headers': hs}
+        prob = rulebook.block_problem(hs, kind)
+        stats[(kind, prob or 'conformant')] = stats.get((kind, prob or 'conformant'), 0) + 1
+        _judge('C15', ops, 'grammar-%d' % k, seed, model, oracle_C15, fails, mism)
+        progs += 1
+        nops += len(ops)
+    dist = {}
+    for (kind, p), c in stats.items():
+        dist.setdefault(kind, {})[p] = c
+    return {'failures': fails, 'mismatches': mism,
+            'coverage': {'grammar_programs': progs, 'grammar_ops': nops, 'grammar_blocks_by_kind_and_first_broken_rule': dist}}
